@@ -115,6 +115,10 @@ def sendTestReq (env : Env) : M Unit := do
     M.modify fun c => { c with testReqId := some env.secs }
     sendMsg env (Msg.mk' mTestRequest [(tTestReqID, pyStr env.secs)])
 
+/-- `except Exception: self.log.exception(…)` – the exception is swallowed; recorded as `caught k`. -/
+def swallow {α} (dflt : α) (x : M α) : M α :=
+  M.tryCatch x fun ex => do M.emit (.caught ex); pure dflt
+
 /-- the Logout built by `disconnect` (l.207-210): Text(58) only for a non-empty reason -/
 def logoutMsg (text : String) : Msg :=
   Msg.mk' mLogout (if text == "" then [] else [(tText, text)])
@@ -129,7 +133,7 @@ def disconnect (env : Env) (dstate : Nat) (logout : Option String) : M Unit := d
     M.assert (dstate ≤ st_DISCONNECTED_BROKEN_CONN)
     M.modify fun c => { c with testReqId := none, lastTime := 0, maxResend := 0 }
     match logout with
-    | some text => sendMsg env (logoutMsg text)
+    | some text => swallow () (sendMsg env (logoutMsg text))
     | none => pure ()
     let c2 ← M.get
     if c2.sock then M.emit .closeSocket else pure ()
